@@ -79,7 +79,7 @@ def fuzz_job(prop, tier):
     fast = prop in ("C12", "C14")  # deque / seqlock cases cost a few microseconds, map cases ~100
     queues = prop in ("C04", "C05", "C06", "C07")
     quick = 200000 if fast else 80000 if queues else 40000
-    thorough = 6000000 if fast else 3000000 if queues else 1500000
+    thorough = 3000000 if fast else 2000000 if queues else 1000000
     return {"families": FUZZ[prop], "workers": scale(tier, 4, 16), "runs": scale(tier, quick, thorough), "max_len": scale(tier, 192, 384)}
 
 
